@@ -67,6 +67,8 @@ def script_text(spec: Spec, variant: int, dofile: str, gates: bool = False) -> s
     L.append(f"# rv-generated dofile={dofile} variant={variant} tag={spec.tag}")
     L.append('echo "B $1 $REDO_RUNID" >> "$RV_TRACE"')
     if gates:
+        L.append('trap \'vgate n "end $1"\' EXIT')
+        L.append('vgate n "begin $1"')
         L.append('vgate n "work-begin $1"')
         L.append('vgate p "s:$1"')
     if spec.kind == "always":
